@@ -316,6 +316,7 @@ func (x *Exec) applyContract(st *State, con *Contract, cname string, pnames []st
 	n := x.fresh("now", SInt)
 	st.assume(app(">=", n, st.now))
 	st.now = n
+	x.closureFacts(st, ts)
 	// results
 	var res Val
 	switch resT.Len() {
@@ -546,6 +547,11 @@ func (x *Exec) appendBuiltin(st *State, cc *ssa.CallCommon, args []Val) Val {
 		ite(and(app("<=", app("+", rOff, app("slen", s.T)), k), app("<", k, app("+", rOff, newLen))), addAt,
 			ite(fits, sel(oldc, k), ite(and(app("<=", "0", k), app("<", k, app("slen", s.T))), sel(oldc, app("+", app("soff", s.T), k)), x.zeroTerm(es)))) +
 		") :pattern ((select " + nc + " " + k + "))))")
+	// ground instance for the first appended element (gives existential goals a witness term)
+	if !isStringT(cc.Args[1].Type()) {
+		first := app("+", rOff, app("slen", s.T))
+		st.assume(implies(app(">=", addLen, "1"), eq(sel(nc, first), sel(sel(h, app("sarr", add.T)), app("soff", add.T)))))
+	}
 	st.setH(m, ms, store(h, app("sarr", r), nc))
 	return term(r, SSlice, cc.Args[0].Type())
 }
